@@ -263,3 +263,6 @@ def run(ctx):
         'MidiWire.tla is the reference for the MIDI 1.0 wire layout',
         'sysex payloads: exhaustive up to length %d over {0,1,127} in TLC, random lengths up to 4096 via trace validation' % (4 if thorough else 3),
     ]
+    # re-entrancy: two threads inside these functions at once, a switch possible before every statement
+    from .. import conc
+    conc.run_scenarios(ctx, 'C01', 2 if ctx.tier == 'thorough' else 1)
